@@ -341,7 +341,7 @@ def correspond(ctx):
     ctx.coverage["distinct_nontrivial"] = len(nontrivial)
     core.eval_cases(ctx, "K-history", ops.IMPORTS, cases, chunk=max(5, len(cases) // 32 + 1))
     # how many explored histories lie inside the class of the certificate-free theorem C17_history_checked?
-    in_class = core.count_true(ctx, "K-history-class", ops.IMPORTS + ["proofs.ClassCheck"],
+    in_class = core.count_true(ctx, "K-history-class", core.CLASS_IMPORTS,
                                [ops.class_expr(s) for s in specs], chunk=max(5, len(specs) // 32 + 1))
     ctx.coverage["histories_in_class_of_C17_history_checked"] = in_class
     ctx.coverage["histories_total"] = len(specs)
